@@ -165,6 +165,7 @@ type World struct {
 	Deadlines []time.Time // published by monitors/actors, consumed by the time chooser
 	Halt     *Halt
 	Divergence string
+	DivergedResp [2]*abci.ResponseFinalizeBlock // the two block responses that differed (first replica, diverging replica)
 
 	// fault switches (drawn per run by the engine)
 	F Faults
@@ -229,6 +230,38 @@ func (w *World) Close() {
 		}
 		os.RemoveAll(r.Home)
 	}
+}
+
+// ExportImport restarts the chain the way an operator does across an upgrade: the primary replica's state is exported as a
+// genesis document and a fresh application (empty database) is initialised from it. Only what the modules export survives;
+// every derived index has to be rebuilt by InitGenesis. The returned context reads the imported state; call done() afterwards.
+func (w *World) ExportImport() (app *band.BandApp, ctx sdk.Context, done func(), err error) {
+	defer func() {
+		if r := recover(); r != nil {
+			err = fmt.Errorf("panic: %v", r)
+		}
+	}()
+	src := w.Primary()
+	exp, err := src.ExportAppStateAndValidators(false, nil, nil)
+	if err != nil {
+		return nil, sdk.Context{}, nil, fmt.Errorf("export: %w", err)
+	}
+	home := ""
+	for _, r := range w.Replicas {
+		if r.App == src {
+			home = r.Home
+		}
+	}
+	napp := band.NewBandApp(log.NewNopLogger(), dbm.NewMemDB(), nil, true, map[int64]bool{}, home,
+		sims.EmptyAppOptions{}, 20, baseapp.SetChainID(w.Cfg.ChainID))
+	cp := defaultConsensusParams
+	if _, err := napp.InitChain(&abci.RequestInitChain{Time: w.Time, ChainId: w.Cfg.ChainID, ConsensusParams: cp,
+		Validators: []abci.ValidatorUpdate{}, AppStateBytes: exp.AppState, InitialHeight: exp.Height}); err != nil {
+		napp.Close()
+		return nil, sdk.Context{}, nil, fmt.Errorf("InitChain on the exported state: %w", err)
+	}
+	c := napp.NewContextLegacy(false, cmtproto.Header{ChainID: w.Cfg.ChainID, Height: exp.Height, Time: w.Time})
+	return napp, c, func() { napp.Close() }, nil
 }
 
 // Primary returns the first live replica's app.
@@ -714,6 +747,7 @@ func (w *World) NextBlock(opts BlockOpts) *BlockRecord {
 			primaryResp = resp
 		} else if d := diffResponses(primaryResp, resp); d != "" {
 			w.Divergence = fmt.Sprintf("height %d replica %d: %s", height, r.ID, d)
+			w.DivergedResp = [2]*abci.ResponseFinalizeBlock{primaryResp, resp}
 			return blk
 		}
 		if err := w.commit(r); err != nil {
